@@ -30,9 +30,23 @@ func (rr *RoundRobinStrategy) NextBackend(r *http.Request) *Backend {
 		return nil
 	}
 
+	// Rotate over the backends that are outside their unhealthy period, so
+	// that an ejected backend (or a run of them) never makes a request fail
+	// while another backend is healthy, however concurrent requests interleave
+	// on the counter.
+	healthy := make([]*Backend, 0, len(rr.backends))
+	for _, backend := range rr.backends {
+		if backend.healthyNow() {
+			healthy = append(healthy, backend)
+		}
+	}
+	if len(healthy) == 0 {
+		return nil // all backends are unhealthy
+	}
+
 	// Get the next index in a thread-safe way
-	idx := atomic.AddUint64(&rr.current, 1) % uint64(len(rr.backends))
-	return rr.backends[idx]
+	idx := atomic.AddUint64(&rr.current, 1) % uint64(len(healthy))
+	return healthy[idx]
 }
 
 // AddBackend adds a backend to the pool
